@@ -1086,6 +1086,16 @@ impl<'a> Tr<'a> {
         let mut rv = RV(false);
         visit::Visit::visit_block(&mut rv, body);
         let has_ret = rv.0;
+        struct BV(bool);
+        impl<'ast> visit::Visit<'ast> for BV {
+            fn visit_expr_break(&mut self, _: &'ast ExprBreak) { self.0 = true; }
+            fn visit_expr_closure(&mut self, _: &'ast ExprClosure) {}
+        }
+        let mut bv = BV(false);
+        visit::Visit::visit_block(&mut bv, body);
+        // `loop { … }` that can only be left by `return`: the code after it is dead in Rust, so running out of fuel
+        // (non-termination of the Rust loop) is mapped to the target's `unreachable` value
+        let never_falls_through = cond.is_none() && !bv.0 && has_ret && self.cfg.unreachable.is_some();
         self.ctr.set(self.ctr.get() + 1);
         let n = self.ctr.get();
         let st = format!("st_{}", n);
@@ -1121,8 +1131,12 @@ impl<'a> Tr<'a> {
         if has_ret {
             writeln!(out, "let {} := (iterFuel {} (fun {} =>\n{}) (fun {} => LoopExit.brk {}) {})", upd, fuel, st, step, st, st, tuple).unwrap();
             let mut after = String::new();
-            self.rebind_from(&vars, "brk_", &mut after);
-            after.push_str(&self.stmts(rest, k)?);
+            if never_falls_through {
+                after.push_str(&self.cfg.unreachable.clone().unwrap());
+            } else {
+                self.rebind_from(&vars, "brk_", &mut after);
+                after.push_str(&self.stmts(rest, k)?);
+            }
             // a `ret` exit of an inner loop propagates as the value of the function (or as a `ret` exit of the enclosing loop)
             let ret_out = if self.loops.borrow().is_empty() { "ret_".to_string() } else { "(Sum.inr (LoopExit.ret ret_))".to_string() };
             write!(out, "(match {} with\n| LoopExit.brk brk_ =>\n{}\n| LoopExit.ret ret_ => {})", upd, after, ret_out).unwrap();
